@@ -156,12 +156,12 @@ fn epoch_of_dir(dir: &str) -> u64 {
 
 thread_local! {
     static SNAPSHOT_MSGS: std::cell::RefCell<Vec<u64>> = const { std::cell::RefCell::new(Vec::new()) };
-    static DISTRO_MSGS: std::cell::RefCell<Vec<(u64, u64)>> = const { std::cell::RefCell::new(Vec::new()) };
+    static DISTRO_MSGS: std::cell::RefCell<Vec<(u64, u64, Vec<String>)>> = const { std::cell::RefCell::new(Vec::new()) };
 }
 
-/// (source node, simulated time in us) of every periodic client-instance report (SyncDistroClientInstances, the registry's
-/// 12 s anti-entropy round) sent in this run
-pub fn naming_distro_msg_times() -> Vec<(u64, u64)> {
+/// (source node, simulated time in us) of every message that carries instances of the sender's clients (the 12 s client
+/// report SyncDistroClientInstances, update batches, single updates, snapshots) sent in this run
+pub fn naming_distro_msg_times() -> Vec<(u64, u64, Vec<String>)> {
     DISTRO_MSGS.with(|v| v.borrow().clone())
 }
 
@@ -243,8 +243,56 @@ fn install_transport() {
             // naming sync messages: remember when full-state messages (snapshot pull answers / pushes) travel
             if ptype == "NamingRouteRequest" {
                 if let Some(sub) = payload.metadata.as_ref().and_then(|m| m.headers.get("sub_name")) {
-                    if sub == "SyncDistroClientInstances" {
-                        DISTRO_MSGS.with(|v| v.borrow_mut().push((src, sim::now_us())));
+                    // (the periodic client report and every message that carries instances of the sender's clients)
+                    // (messages that carry instances of the sender's clients and overwrite what the receiver holds; the periodic
+                    // client report carries keys only - a receiver acts on it only for keys it does not have under that client)
+                    if sub == "SyncBatchInstances" || sub == "SyncUpdateInstance" || sub == "Snapshot" {
+                        // the addresses (10.x.y.z) the message mentions: strings and byte arrays of its JSON body
+                        fn collect(v: &serde_json::Value, out: &mut Vec<u8>) {
+                            match v {
+                                serde_json::Value::String(s) => {
+                                    out.extend_from_slice(s.as_bytes());
+                                    out.push(b' ');
+                                }
+                                serde_json::Value::Array(a) => {
+                                    if !a.is_empty() && a.iter().all(|x| x.as_u64().map(|n| n < 256).unwrap_or(false)) {
+                                        out.extend(a.iter().map(|x| x.as_u64().unwrap_or(0) as u8));
+                                        out.push(b' ');
+                                    } else {
+                                        a.iter().for_each(|x| collect(x, out));
+                                    }
+                                }
+                                serde_json::Value::Object(m) => m.iter().for_each(|(k, x)| {
+                                    out.extend_from_slice(k.as_bytes());
+                                    out.push(b' ');
+                                    collect(x, out)
+                                }),
+                                _ => {}
+                            }
+                        }
+                        let mut blob = vec![];
+                        if let Some(b) = payload.body.as_ref() {
+                            if let Ok(j) = serde_json::from_slice::<serde_json::Value>(&b.value) {
+                                collect(&j, &mut blob);
+                            }
+                        }
+                        let text = String::from_utf8_lossy(&blob).to_string();
+                        let mut ips: Vec<String> = vec![];
+                        let bytes = text.as_bytes();
+                        let mut i = 0;
+                        while i + 3 < bytes.len() {
+                            if &bytes[i..i + 3] == b"10." {
+                                let end = (i..bytes.len()).find(|j| !(bytes[*j].is_ascii_digit() || bytes[*j] == b'.')).unwrap_or(bytes.len());
+                                let ip = text[i..end].trim_end_matches('.').to_string();
+                                if ip.matches('.').count() == 3 && !ips.contains(&ip) {
+                                    ips.push(ip);
+                                }
+                                i = end;
+                            } else {
+                                i += 1;
+                            }
+                        }
+                        DISTRO_MSGS.with(|v| v.borrow_mut().push((src, sim::now_us(), ips)));
                     }
                     if sub == "Snapshot" {
                         SNAPSHOT_MSGS.with(|v| v.borrow_mut().push(sim::now_us()));
